@@ -2,3 +2,5 @@
 use vstd::prelude::*;
 // platform assumption: 64-bit (the pinned test-suite and Kani runs are x86_64)
 global size_of usize == 8;
+pub use crate::compression::CompressionType;
+pub use crate::error::Error;
